@@ -162,6 +162,12 @@ func predN(cl []json.RawMessage) func([]tla.Value) bool {
 		return func(a []tla.Value) bool { return tla.ModuleEqualsSymbol(a[0], a[1]).AsBool() }
 	case "asbool":
 		return func(a []tla.Value) bool { return a[0].AsBool() }
+	case "tuplt": // \A <<x, y>> \in S : x < y, as MPCalGoCodegenPass emits a tuple-typed bound
+		return func(a []tla.Value) bool {
+			var x tla.Value = a[0].ApplyFunction(tla.MakeNumber(1))
+			var y tla.Value = a[0].ApplyFunction(tla.MakeNumber(2))
+			return tla.ModuleLessThanSymbol(x, y).AsBool()
+		}
 	}
 	panic("unknown predicate " + name)
 }
@@ -190,6 +196,12 @@ func bodyN(cl []json.RawMessage) func([]tla.Value) tla.Value {
 		return func(a []tla.Value) tla.Value { return tla.ModulePercentSymbol(a[0], v) }
 	case "last":
 		return func(a []tla.Value) tla.Value { return a[len(a)-1] }
+	case "tupswap": // {<<y, x>> : <<x, y>> \in S}
+		return func(a []tla.Value) tla.Value {
+			var x tla.Value = a[0].ApplyFunction(tla.MakeNumber(1))
+			var y tla.Value = a[0].ApplyFunction(tla.MakeNumber(2))
+			return tla.MakeTuple(y, x)
+		}
 	}
 	panic("unknown body " + name)
 }
